@@ -623,7 +623,8 @@ class HierarchicalMachine(Machine):
             src = self.state_cls.separator.join(src_path)
             dest = self.state_cls.separator.join(dest_path)
             transitions = super(HierarchicalMachine, self).get_transitions(trigger, src, dest)
-            if len(src_path) > 1 and len(dest_path) > 1:
+            # a transition declared inside a state has its source AND its destination below that state
+            if len(src_path) > 1 and len(dest_path) > 1 and src_path[0] == dest_path[0]:
                 with self(src_path[0]):
                     transitions.extend(self.get_nested_transitions(trigger, src_path[1:], dest_path[1:]))
         elif src_path:
@@ -635,10 +636,10 @@ class HierarchicalMachine(Machine):
         elif dest_path:
             dest = self.state_cls.separator.join(dest_path)
             transitions = super(HierarchicalMachine, self).get_transitions(trigger, "*", dest)
-            if len(dest_path) > 1:
-                for state_name in self.states:
-                    with self(state_name):
-                        transitions.extend(self.get_nested_transitions(trigger, None, dest_path[1:]))
+            # only the branch the destination lies in can declare transitions to it
+            if len(dest_path) > 1 and dest_path[0] in self.states:
+                with self(dest_path[0]):
+                    transitions.extend(self.get_nested_transitions(trigger, None, dest_path[1:]))
         else:
             transitions = super(HierarchicalMachine, self).get_transitions(trigger, "*", "*")
             for state_name in self.states:
